@@ -10,9 +10,16 @@ hand model `Impl.V2.*` to the model regenerated from the C++ sources
   undefined-behaviour outcome — including the signed overflow and the
   out-of-bounds cursor moves that the generated code checks explicitly.
 
-The size hypotheses are those of the equalities (see Proofs/ImplV2Gen.lean).
+* `gen_*_roundtrip_partial` (C03): on the *regenerated pair* — encoder and decoder both
+  translated from the C++, both through the C++-style primitives of Impl/CxxPrims.lean — the
+  decoder returns exactly the value and extra bytes the encoder was given;
+* `gen_encode*_eq_hand_partial`: the regenerated encoder returns what the hand model
+  `Impl.V2.encode*` returns (so the C04 statements on the hand model transfer).
+
+The size hypotheses are those of the equalities (see Proofs/ImplV2Gen.lean, ImplV2GenEnc.lean).
 -/
 import Proofs.ImplV2Gen
+import Proofs.ImplV2GenEnc
 import Proofs.ImplV2Lists
 
 namespace EngineModel.Gen.ImplV2
@@ -47,5 +54,93 @@ theorem gen_cues_safe_partial (bs : Bytes) (hb : bs.length < 2305843009213693952
 theorem gen_loops_safe_partial (bs : Bytes) (hb : bs.length < 2305843009213693952) (u : Ub) :
     decodeLoops bs ≠ .ub u := by
   rw [gen_loops_spec_partial bs hb]; exact Impl.V2.liftDec_never_ub _ _ _
+
+/-! ### encoders: regenerated = hand model -/
+
+theorem gen_encodeTrack_eq_hand_partial (v : Track) (extra : Bytes)
+    (h : (track.enc v ++ extra).length < 9223372036854775808) :
+    encodeTrack v extra = Impl.V2.encodeTrack v extra := by
+  rw [encodeTrack_spec_partial v extra h, Impl.V2.encodeTrack_ok]
+theorem gen_encodeBeat_eq_hand_partial (v : Beat) (extra : Bytes)
+    (h : (beat.enc v ++ extra).length < 9223372036854775808) :
+    encodeBeat v extra = Impl.V2.encodeBeat v extra := by
+  rw [encodeBeat_spec_partial v extra h, Impl.V2.encodeBeat_ok]
+theorem gen_encodeOvw_eq_hand_partial (v : Ovw) (hv : v.Valid) (extra : Bytes)
+    (h : (ovw.enc v ++ extra).length < 9223372036854775808) :
+    encodeOvw v extra = Impl.V2.encodeOvw v extra := by
+  rw [encodeOvw_spec_partial v hv extra h, Impl.V2.encodeOvw_ok v hv]
+theorem gen_encodeCues_eq_hand_partial (v : Cues) (extra : Bytes)
+    (h : (cues.enc v ++ extra).length < 9223372036854775808) :
+    encodeCues v extra = Impl.V2.encodeCues v extra := by
+  by_cases hf : Impl.V2.CuesFit v
+  · rw [encodeCues_ok_partial v hf extra h, Impl.V2.encodeCues_ok v hf]
+  · rw [Impl.V2.encodeCues_reject v hf]
+    apply encodeCues_reject_partial v _ extra h
+    apply Classical.byContradiction
+    intro hne
+    apply hf
+    intro q hq
+    apply Classical.byContradiction
+    intro hlen
+    exact hne ⟨q, hq, by omega⟩
+theorem gen_encodeLoops_eq_hand_partial (v : Loops) (extra : Bytes)
+    (h : (loops.enc v ++ extra).length < 9223372036854775808) :
+    encodeLoops v extra = Impl.V2.encodeLoops v extra := by
+  by_cases hf : Impl.V2.LoopsFit v
+  · rw [encodeLoops_ok_partial v hf extra h, Impl.V2.encodeLoops_ok v hf]
+  · rw [Impl.V2.encodeLoops_reject v hf]
+    apply encodeLoops_reject_partial v _ extra h
+    apply Classical.byContradiction
+    intro hne
+    apply hf
+    intro q hq
+    apply Classical.byContradiction
+    intro hlen
+    exact hne ⟨q, hq, by omega⟩
+
+/-! ### the regenerated pair round-trips (C03 on the code as it is now) -/
+
+theorem liftDec_of_sound {α} {c : Codec α} {P} (hs : c.Sound P) (a : α) (ha : P a) (r : Bytes) :
+    liftDec c (c.enc a ++ r) = .ok (a, r) := by
+  unfold liftDec; rw [hs a ha r]
+
+theorem gen_track_roundtrip_partial (v : Track) (extra : Bytes)
+    (h : (track.enc v ++ extra).length < 9223372036854775808) :
+    ∃ b, encodeTrack v extra = .ok b ∧ decodeTrack b = .ok (v, extra) :=
+  ⟨_, encodeTrack_spec_partial v extra h, by rw [gen_track_spec, liftDec_of_sound track_sound v trivial]⟩
+
+theorem gen_beat_roundtrip_partial (v : Beat) (extra : Bytes)
+    (h : (beat.enc v ++ extra).length < 9223372036854775808) :
+    ∃ b, encodeBeat v extra = .ok b ∧ decodeBeat b = .ok (v, extra) := by
+  refine ⟨_, encodeBeat_spec_partial v extra h, ?_⟩
+  have hv : v.Valid := by
+    simp only [List.length_append, Impl.V2.beat_enc_length] at h
+    unfold Beat.Valid maxCount; omega
+  rw [gen_beat_spec, liftDec_of_sound beat_sound v hv]
+
+theorem gen_ovw_roundtrip_partial (v : Ovw) (hv : v.Valid) (extra : Bytes)
+    (h : (ovw.enc v ++ extra).length < 9223372036854775808) :
+    ∃ b, encodeOvw v extra = .ok b ∧ decodeOvw b = .ok (v, extra) :=
+  ⟨_, encodeOvw_spec_partial v hv extra h, by rw [gen_ovw_spec_partial _ h, liftDec_of_sound ovw_sound v hv]⟩
+
+theorem gen_cues_roundtrip_partial (v : Cues) (hf : ∀ q ∈ v.cues, q.label.length ≤ 255) (extra : Bytes)
+    (h : (cues.enc v ++ extra).length < 2305843009213693952) :
+    ∃ b, encodeCues v extra = .ok b ∧ decodeCues b = .ok (v, extra) := by
+  refine ⟨_, encodeCues_ok_partial v hf extra (by omega), ?_⟩
+  have hv : v.Valid := by
+    refine ⟨?_, hf⟩
+    simp only [List.length_append, Impl.V2.cues_enc_length] at h
+    unfold maxCount; omega
+  rw [gen_cues_spec_partial _ h, liftDec_of_sound cues_sound v hv]
+
+theorem gen_loops_roundtrip_partial (v : Loops) (hf : ∀ l ∈ v, l.label.length ≤ 255) (extra : Bytes)
+    (h : (loops.enc v ++ extra).length < 2305843009213693952) :
+    ∃ b, encodeLoops v extra = .ok b ∧ decodeLoops b = .ok (v, extra) := by
+  refine ⟨_, encodeLoops_ok_partial v hf extra (by omega), ?_⟩
+  have hv : LoopsValid v := by
+    refine ⟨?_, hf⟩
+    simp only [List.length_append, Impl.V2.loops_enc_length] at h
+    unfold maxCount; omega
+  rw [gen_loops_spec_partial _ h, liftDec_of_sound loops_sound v hv]
 
 end EngineModel.Gen.ImplV2
